@@ -116,45 +116,29 @@ theorem C07_written_stream_checked (ms : List (WMsg × Nat)) (hg : ms.all (fun x
 /-- non-vacuity: a typical HAP response, an event, a body-less reply and a chunked reply satisfy `Good` -/
 def exResp : WMsg :=
   { version := str "HTTP/1.1", codeText := str "207", reason := str "Multi-Status",
-    headers := [(str "content-type", str "  application/hap+json ")], framing := .length (str "2"), body := str "{}" }
+    headers := [(str "content-type", str "  application/hap+json ")], framing := .length (str "Content-Length", str " 2"),
+    after := [], body := str "{}" }
 def exEvent : WMsg :=
   { version := str "EVENT/1.0", codeText := str "200", reason := str "OK",
-    headers := [(str "content-type", str "  application/hap+json ")], framing := .length (str "4"), body := str "null" }
+    headers := [], framing := .length (str "content-length", str "4"),
+    after := [(str "content-type", str "  application/hap+json ")], body := str "null" }
 def exNoBody : WMsg :=
-  { version := str "HTTP/1.1", codeText := str "204", reason := str "No Content", headers := [], framing := .none, body := [] }
+  { version := str "HTTP/1.1", codeText := str "204", reason := str "No Content", headers := [], framing := .none, after := [], body := [] }
 def exChunked : WMsg :=
   { version := str "HTTP/1.1", codeText := str "200", reason := str "OK",
     headers := [(str "content-type", str "  application/hap+json ")],
-    framing := .chunked [(str "a", str "{\"accessor"), (str "21", str "ies\":[{\"aid\":1,\"services\":[]}]}\r\n")],
+    framing := .chunked (str "Transfer-Encoding", str " chunked") [(str "a", str "{\"accessor"), (str "21", str "ies\":[{\"aid\":1,\"services\":[]}]}\r\n")],
+    after := [],
     body := str "{\"accessories\":[{\"aid\":1,\"services\":[]}]}\r\n" }
 
-theorem goodHeader_ct : GoodHeader (str "content-type", str "  application/hap+json ") :=
-  ⟨by decide +kernel, by decide +kernel, by decide +kernel, by decide +kernel, by decide +kernel⟩
-
-/-- ... and it reaches the application as `Content-Type` / `application/hap+json` -/
+/-- the lower-case, padded `content-type` header reaches the application as `Content-Type` / `application/hap+json` -/
 example : normHeader (str "content-type", str "  application/hap+json ") = (str "Content-Type", str "application/hap+json") := by
   decide +kernel
 
-example : Good exResp 207 :=
-  ⟨by decide +kernel, by decide +kernel, by decide +kernel, by decide +kernel, by decide +kernel,
-   by intro h hh; simp [exResp] at hh; subst hh; exact goodHeader_ct,
-   by show parseDec _ = some _; decide +kernel⟩
-example : Good exEvent 200 :=
-  ⟨by decide +kernel, by decide +kernel, by decide +kernel, by decide +kernel, by decide +kernel,
-   by intro h hh; simp [exEvent] at hh; subst hh; exact goodHeader_ct,
-   by show parseDec _ = some _; decide +kernel⟩
-example : Good exNoBody 204 :=
-  ⟨by decide +kernel, by decide +kernel, by decide +kernel, by decide +kernel, by decide +kernel,
-   by intro h hh; simp [exNoBody] at hh, rfl⟩
-example : Good exChunked 200 :=
-  ⟨by decide +kernel, by decide +kernel, by decide +kernel, by decide +kernel, by decide +kernel,
-   by intro h hh; simp [exChunked] at hh; subst hh; exact goodHeader_ct,
-   ⟨by decide +kernel, by
-      intro c hc
-      simp only [List.mem_cons, List.not_mem_nil, or_false] at hc
-      rcases hc with rfl | rfl
-      · exact ⟨by decide +kernel, by decide +kernel⟩
-      · exact ⟨by decide +kernel, by decide +kernel⟩⟩⟩
+example : Good exResp 207 := goodB_sound _ _ (by decide +kernel)
+example : Good exEvent 200 := goodB_sound _ _ (by decide +kernel)
+example : Good exNoBody 204 := goodB_sound _ _ (by decide +kernel)
+example : Good exChunked 200 := goodB_sound _ _ (by decide +kernel)
 
 /-- the theorem at work: the chunked reply followed by the event, cut into three reads in the middle of a chunk size
     and of the event's status line -/
